@@ -417,15 +417,13 @@ type c02World struct {
 	seenFault                                     map[string]bool
 	toldCreated                                   map[string]bool
 	deleteFailed, everRecorded, writeFailAtCreate map[string]bool
-	tainted                                       map[string]bool // pods whose binding already violates C02 through a listed finding
-	overDemand                                    int             // settle rounds in which addresses were requested although enough were idle
+	overDemand                                    int // settle rounds in which addresses were requested although enough were idle
 	inSettle                                      bool
 	writeLost                                     bool              // a record write failed and no later pass has persisted a full sync yet
 	efloCollision                                 bool              // a half-created EFLO address was answered while the record already held one under the empty key
 	drifted                                       map[string]string // addresses removed in the cloud out of band (addr -> interface) since the last persisted full sync
 	failedWrites                                  int               // 1 if the latest pass whose record write failed had changed the cloud (the controller then must resync)
 	settleTail                                    [][]cloudctl.Call // calls of the last settle rounds
-	nilMapHit                                     map[string]bool   // "<eni>/<4|6>": a full sync was told addresses of a family the record held no map for
 
 	nt      bool
 	witness *string // non-nil in a witness run: receives the violation message
@@ -449,7 +447,7 @@ func c02Hygiene() {
 func c02NewWorld(c *vt.Ctx, s c02Scenario) *c02World {
 	c02Hygiene()
 	w := &c02World{c: c, s: s, ctx: context.Background(), live: map[int]*c02LivePod{}, everPod: map[string]bool{},
-		k: map[string]*c08KENI{}, seenFault: map[string]bool{}, toldCreated: map[string]bool{}, deleteFailed: map[string]bool{}, everRecorded: map[string]bool{}, writeFailAtCreate: map[string]bool{}, tainted: map[string]bool{}, drifted: map[string]string{}, nilMapHit: map[string]bool{}, clock: time.Now().Add(-24 * time.Hour).Truncate(time.Second)}
+		k: map[string]*c08KENI{}, seenFault: map[string]bool{}, toldCreated: map[string]bool{}, deleteFailed: map[string]bool{}, everRecorded: map[string]bool{}, writeFailAtCreate: map[string]bool{}, drifted: map[string]string{}, clock: time.Now().Add(-24 * time.Hour).Truncate(time.Second)}
 	n := s.Node
 
 	// ---- cloud
@@ -942,21 +940,14 @@ func c02Fam(v6 bool) string {
 // c02CheckRecord checks the C02 invariants (i)-(vi) of DESIGN section 3 on a record, given
 // the record before the pass and the pod table as it was when the pass started. It returns
 // the first violation ("" if none) and classification facts.
-func c02CheckRecord(prev, cur map[string]*networkv1beta1.NetworkInterface, pods map[string]*c02PodView, everPod map[string]bool, tainted map[string]bool, dual, enableERDMA bool) (string, map[string]bool) {
+func c02CheckRecord(prev, cur map[string]*networkv1beta1.NetworkInterface, pods map[string]*c02PodView, everPod map[string]bool, enableERDMA bool) (string, map[string]bool) {
 	facts := map[string]bool{}
-	fresh4 := map[string]bool{} // pods whose IPv4 binding was created by this pass, not by take-over
-	old6 := map[string]bool{}   // pods whose IPv6 binding existed before this pass or was re-adopted from the pod's report
 	where := map[string]string{}
 	type podB struct{ eni4, a4, eni6, a6 string }
 	byPod := map[string]*podB{}
 	prevPod := map[string]string{} // fam|addr -> pod
-	prevHas6 := map[string]bool{}
-	prevB := c02Bindings(prev)
-	for _, b := range prevB {
+	for _, b := range c02Bindings(prev) {
 		prevPod[c02Fam(b.v6)+"|"+b.addr] = b.pod
-		if b.v6 && b.pod != "" {
-			prevHas6[b.pod] = true
-		}
 	}
 	for _, b := range c02Bindings(cur) {
 		key := c02Fam(b.v6) + "|" + b.addr
@@ -987,34 +978,13 @@ func c02CheckRecord(prev, cur map[string]*networkv1beta1.NetworkInterface, pods 
 		}
 		// new binding?
 		if prevPod[key] == b.pod {
-			if b.v6 {
-				old6[b.pod] = true
-			}
 			continue
 		}
 		facts["new-binding"] = true
 		// (i) the address must not be taken from a pod that still exists: the record can
 		// name one owner only, the previous one would go on using the address
 		if prevOwner := prevPod[key]; prevOwner != "" && pods[prevOwner] != nil && pods[prevOwner].eligible {
-			// candidate defect: the "no IPv6 found, roll back IPv4" branch also unbinds an IPv4
-			// binding that existed before the pass (the pod has not reported it yet) when the
-			// pod has no IPv6 binding (any more)
-			lostV6 := !prevHas6[prevOwner]
-			for _, pb := range prevB {
-				if pb.v6 && pb.pod == prevOwner {
-					if e := cur[pb.eni]; e == nil || e.IPv6[pb.addr] == nil || e.IPv6[pb.addr].PodID != prevOwner {
-						lostV6 = true
-					}
-				}
-			}
-			known := false
-			if dual && !b.v6 && lostV6 && pods[prevOwner].v4 == "" {
-				facts["class:C02-rollback-unbinds-existing-v4"] = true
-				known = c08Known("C02-rollback-unbinds-existing-v4")
-			}
-			if !known {
-				return fmt.Sprintf("(i) address %s on %s was bound to pod %s, which still exists (sandbox not exited), and is now bound to %s", b.addr, b.eni, prevOwner, b.pod), facts
-			}
+			return fmt.Sprintf("(i) address %s on %s was bound to pod %s, which still exists (sandbox not exited), and is now bound to %s", b.addr, b.eni, prevOwner, b.pod), facts
 		}
 		pv := pods[b.pod]
 		// (vi) only pods that exist and are served by this controller get bindings
@@ -1034,9 +1004,6 @@ func c02CheckRecord(prev, cur map[string]*networkv1beta1.NetworkInterface, pods 
 				return fmt.Sprintf("(v) pod %s reports %s but was newly bound to %s on %s", b.pod, reported, b.addr, b.eni), facts
 			}
 			facts["takeover"] = true
-			if b.v6 {
-				old6[b.pod] = true
-			}
 			if b.ipStatus != networkv1beta1.IPStatusValid || b.eniStatus != aliyunClient.ENIStatusInUse {
 				facts["takeover-invalid"] = true
 			}
@@ -1059,9 +1026,6 @@ func c02CheckRecord(prev, cur map[string]*networkv1beta1.NetworkInterface, pods 
 		if pv.erdma {
 			facts["rdma-binding"] = true
 		}
-		if !b.v6 {
-			fresh4[b.pod] = true
-		}
 	}
 	// (iii) dual stack: one interface per pod
 	pids := make([]string, 0, len(byPod))
@@ -1074,17 +1038,6 @@ func c02CheckRecord(prev, cur map[string]*networkv1beta1.NetworkInterface, pods 
 		if pb.a4 != "" && pb.a6 != "" {
 			facts["dual-bound"] = true
 			if pb.eni4 != pb.eni6 {
-				if tainted[p] {
-					continue
-				}
-				if fresh4[p] && old6[p] {
-					// candidate defect: the IPv4 choice ignores the interface of an existing IPv6 binding
-					facts["class:C02-v4-not-on-v6-eni"] = true
-					facts["taint:"+p] = true
-					if c08Known("C02-v4-not-on-v6-eni") {
-						continue
-					}
-				}
 				return fmt.Sprintf("(iii) pod %s has IPv4 %s on %s but IPv6 %s on %s", p, pb.a4, pb.eni4, pb.a6, pb.eni6), facts
 			}
 		}
